@@ -63,12 +63,15 @@ func (l *StartStop) Stop() {
 	}
 	startedCh := l.startedCh
 	l.mu.Unlock()
+	verifYield(l, "stop.afterFirst")
 
 	<-startedCh
+	verifYield(l, "stop.afterStarted")
 
 	l.mu.Lock()
 	doneCh := l.doneCh
 	l.mu.Unlock()
+	verifYield(l, "stop.afterSecond")
 
 	<-doneCh
 }
